@@ -236,3 +236,26 @@ def docBonds : List DocBond :=
   [{ kind := .implicit }] ++ kinds.flatMap fun k => [{ kind := k }, { kind := k, ring := some true }, { kind := k, ring := some false }]
 
 end ChythonModel.Spec.Query
+
+namespace ChythonModel.Spec.Query
+
+/-! ## charge notation (Daylight): a sign repeated 1…4 times, or a sign followed by one digit 1…4 -/
+
+def chargeMeaning (t : List Char) : Option Int :=
+  let val (sign : Int) (rest : List Char) (sg : Char) : Option Int :=
+    match rest with
+    | [] => some sign
+    | [d] => if d == '1' then some sign else if d == '2' then some (2 * sign) else if d == '3' then some (3 * sign)
+             else if d == '4' then some (4 * sign) else if d == sg then some (2 * sign) else none
+    | [a, b] => if a == sg && b == sg then some (3 * sign) else none
+    | [a, b, c] => if a == sg && b == sg && c == sg then some (4 * sign) else none
+    | _ => none
+  match t with
+  | '+' :: rest => val 1 rest '+'
+  | '-' :: rest => val (-1) rest '-'
+  | _ => none
+
+def documentedChargeTexts : List (List Char) :=
+  ["+", "++", "+++", "++++", "+1", "+2", "+3", "+4", "-", "--", "---", "----", "-1", "-2", "-3", "-4"].map String.toList
+
+end ChythonModel.Spec.Query
